@@ -14,9 +14,11 @@ CHECKS = {
     "C12": dict(
         engine="pipeline", cat="exploration", ref="DESIGN.md §4.1 (C12)",
         technique="deterministic simulation: real worker threads under a "
-                  "seeded baton scheduler with virtual clock, timeout/stall/"
-                  "starvation/pre-emption faults; exactly-once in-order "
-                  "history check + bounded-step termination",
+                  "seeded baton scheduler with virtual clock; faults: "
+                  "queue-timeout firings, source/disk stalls, starved roles, "
+                  "line pre-emption, bounded-inbox overflow, injected garbage "
+                  "collections; exactly-once in-order history check + "
+                  "bounded-step termination",
         text="Seeded search over thread interleavings, queue-timeout firings, "
              "stalls and starvation of the real auditok worker threads; each "
              "run's observer histories are checked for exactly-once in-order "
@@ -30,8 +32,10 @@ CHECKS = {
     "C13": dict(
         engine="pipeline", cat="exploration", ref="DESIGN.md §4.1 (C13)",
         technique="deterministic simulation of reader/writer threads with "
-                  "seeded schedules, lagging-writer starvation, randomised "
-                  "cache sizes; byte-exact file oracles",
+                  "seeded schedules, lagging-writer starvation, slow disk, "
+                  "randomised cache sizes, inbox backlogs beyond 1024 blocks, "
+                  "a second concurrent pipeline, injected garbage collections; "
+                  "byte-exact file oracles",
         text="Same simulator as C12 with scenarios biased to savers: the "
              "stream saver's writer thread is starved/stalled, cache sizes "
              "span 0..beyond-stream, joiner silence durations and region "
